@@ -41,19 +41,21 @@ CatchElem == Prim("int", FALSE, None, 5, <<T("gte", 2, "gte")>>, <<>>)
 Inner2 == Struct(<<Kid("x", NoTags, CatchElem), Kid("y", NoTags, Ptr(Prim("int", FALSE, None, None, <<>>, <<>>), TRUE))>>, <<>>, <<>>)
 \* catching nodes below other containers: element behind a pointer, slice behind a pointer, struct element
 DeepVariants == {Slice(Ptr(CatchElem, TRUE), FALSE, None, <<>>, <<>>),
+                 Slice(Pre("ok", CatchElem), FALSE, None, <<>>, <<>>),
                  Ptr(Slice(CatchElem, TRUE, None, SliceTests, <<>>), TRUE),
                  Slice(Inner2, FALSE, None, <<>>, <<>>)}
-StructVariants == {Inner, Ptr(Inner, TRUE), Slice(Inner, FALSE, None, <<>>, <<>>)} \cup Sel({Slice(Ptr(CatchElem, TRUE), FALSE, None, <<>>, <<>>)}, DeepVariants, DeepVariants)
+PreVariants == {Pre(kd, Prim("int", TRUE, None, c, <<T("gte", 2, "gte")>>, <<"ok">>)) : kd \in {"ok", "err", "zerr"}, c \in Sel({None}, {None}, {None, 5})}
+StructVariants == {Inner, Ptr(Inner, TRUE), Slice(Inner, FALSE, None, <<>>, <<>>)} \cup Sel({}, PreVariants, PreVariants) \cup Sel({Slice(Ptr(CatchElem, TRUE), FALSE, None, <<>>, <<>>), Slice(Pre("ok", CatchElem), FALSE, None, <<>>, <<>>)}, DeepVariants, DeepVariants)
 
 FieldVariants == PrimVariants \cup SliceVariants \cup PtrVariants \cup CustomVariants \cup StructVariants
 
 LeafInputs == Sel({Missing, Bad, Val(1), Val(3)},
                   {Missing, Blank, Bad, Val(0), Val(1), Val(3)},
                   {Missing, Nil, Blank, Empty, Bad, Val(0), Val(1), Val(3), SVal(3)})
-ListInputs == Sel({Missing, List(<<Val(1), Val(3)>>), List(<<Val(1), Nil>>)},
-                  {Missing, Val(3), List(<<>>), List(<<Val(1), Val(3)>>), List(<<Bad, Val(3)>>), List(<<Val(1), Nil>>)},
+ListInputs == Sel({Missing, List(<<Val(1), Val(3)>>), List(<<Val(1), Nil>>), List(<<SVal(1), Val(3)>>)},
+                  {Missing, Val(3), List(<<>>), List(<<Val(1), Val(3)>>), List(<<Bad, Val(3)>>), List(<<Val(1), Nil>>), List(<<SVal(1), Val(3)>>)},
                   {Missing, Nil, Blank, Val(3), List(<<>>), List(<<Val(1), Val(3)>>), List(<<Val(3), Val(1)>>), List(<<Bad, Val(3)>>),
-                   List(<<Val(1), Nil>>), List(<<Nil, Val(3)>>)})
+                   List(<<Val(1), Nil>>), List(<<Nil, Val(3)>>), List(<<SVal(1), Val(3)>>)})
 InnerInputs == Sel({Map(<<Ent("x", Val(1))>>), Map(<<Ent("x", Val(3))>>)},
                    {Missing, Val(1), Map(<<Ent("x", Val(1))>>), Map(<<Ent("x", Val(3))>>), Map(<<>>)},
                    {Missing, Val(1), Map(<<Ent("x", Val(1))>>), Map(<<Ent("x", Val(3))>>), Map(<<>>)})
@@ -61,6 +63,7 @@ InnerInputs == Sel({Map(<<Ent("x", Val(1))>>), Map(<<Ent("x", Val(3))>>)},
 RECURSIVE ParseInputs(_)
 ParseInputs(node) ==
   CASE node.k \in {"prim", "custom"} -> LeafInputs
+    [] node.k = "pre" -> {Missing, Blank, Bad, Val(3), SVal(1), SVal(3)}
     [] node.k = "slice"  -> IF Elem(node).k = "struct"
                             THEN {Missing, List(<<>>), List(<<Map(<<Ent("x", Val(1))>>), Map(<<Ent("x", Val(3))>>)>>),
                                   List(<<Map(<<Ent("x", Val(1)), Ent("y", Val(1))>>), Map(<<Ent("x", Val(3))>>)>>)}
@@ -73,6 +76,7 @@ ParseInputs(node) ==
 RECURSIVE ValueInputs(_)
 ValueInputs(node) ==
   CASE node.k \in {"prim", "custom"} -> {Val(0), Val(1), Val(3)}
+    [] node.k = "pre" -> {}                 \* Preprocess in Validate needs a pointer-typed function: not modelled
     [] node.k = "slice"  -> IF Elem(node).k = "struct"
                             THEN {Nil, List(<<Map(<<Ent("x", Val(1))>>), Map(<<Ent("x", Val(3))>>)>>),
                                   List(<<Map(<<Ent("x", Val(1)), Ent("y", Val(1))>>), Map(<<Ent("x", Val(3))>>)>>)}
@@ -82,7 +86,10 @@ ValueInputs(node) ==
     [] node.k = "struct" -> {Map(<<Ent("x", Val(0))>>), Map(<<Ent("x", Val(1))>>), Map(<<Ent("x", Val(3))>>)}
     [] OTHER -> {Nil}
 
-InputsFor(node, mode) == IF mode = "parse" THEN ParseInputs(node) ELSE ValueInputs(node)
+RECURSIVE HasPre(_)
+HasPre(node) == node.k = "pre" \/ \E i \in DOMAIN node.kids : HasPre(node.kids[i].node)
+\* Preprocess in Validate needs a pointer-typed function: such variants are explored in Parse only
+InputsFor(node, mode) == IF mode = "parse" THEN ParseInputs(node) ELSE IF HasPre(node) THEN {} ELSE ValueInputs(node)
 
 \* quick: the root's own tests pass, so that successful executions exist (C01, C03); failing struct tests are on Inner
 StructTests == Sel({<<UT("const", 0, "st1"), UT("const", 0, "st2")>>}, {<<UT("const", 1, "st1"), UT("const", 1, "st2")>>},
@@ -103,7 +110,7 @@ Init ==
 Universe ==
   [variants |-> [i \in 1..Cardinality(FieldVariants) |->
                    LET f == SetToSeq(FieldVariants)[i]
-                   IN [node |-> f, parse |-> SetToSeq(ParseInputs(f)), validate |-> SetToSeq(ValueInputs(f))]],
+                   IN [node |-> f, parse |-> SetToSeq(ParseInputs(f)), validate |-> SetToSeq(InputsFor(f, "validate"))]],
    structTests |-> SetToSeq(StructTests)]
 
 Spec == Init /\ [][Next]_vars
